@@ -101,8 +101,8 @@ func init() {
 						cases = append(cases, cs{o})
 						// strict operators over an aggregate column of the subquery (an all-NULL group makes it NULL)
 						for _, a := range []agg{{"sum", false, "t.x"}, {"min", false, "t.x"}, {"avg", false, "t.f"}, {"sum", true, "t.x"}} {
-							if ai != 0 && !r.Thorough() {
-								break // quick: once per (table, key set)
+							if ai != 0 {
+								break // once per (table, key set)
 							}
 							o2 := NewQuery()
 							o2.From = &From{Sub: mkq(t, keys, []agg{a}, ""), Alias: "s"}
